@@ -15,7 +15,7 @@
                                       bootstrap connection) *)
 From AV Require Import Base.Util Model.Framing Proofs.BrokerClientInv.
 From AV Require Model.BrokerClient.
-From AV Require Import Model.ClientReq Proofs.ClientReqClosed Proofs.ClientReqC20 Proofs.ClientReqC20b Proofs.ClientReqC20c Proofs.ClientReqC20d.
+From AV Require Import Model.ClientReq Proofs.ClientReqClosed Proofs.ClientReqC20 Proofs.ClientReqC20b Proofs.ClientReqC20c Proofs.ClientReqC20d Proofs.ClientReqBt.
 
 (* New work after close() is refused, in ANY state with the closed flag set: a request to a known broker raises ClientError
    and changes nothing ... *)
@@ -97,6 +97,16 @@ Theorem C20_no_connect_no_write_after_close : forall g evs cl C1 o1 evs2 C2 o2,
   forallb net_quiet (o1 ++ o2) = true /\ ClosedInv C2.
 Proof. exact c20_no_connect_no_write. Qed.
 Print Assumptions C20_no_connect_no_write_after_close.
+
+(* No DelayedCall survives close().  In every reachable state with the closed flag set - right after close() returned and
+   ever after, whatever happens - the reactor holds nothing of this client: no request timer (every request is resolved
+   and released), no reconnect back-off timer of any broker client (close cancelled it; [b_timer] mirrors M7's back-off
+   state in every reachable state), no bootstrap request timer.  [count_timers] is the number the correspondence
+   compares with len(reactor.getDelayedCalls()) after every event. *)
+Theorem C20_no_timers_after_close : forall g evs, c_clients (fst (run (init g) evs)) = None ->
+  count_timers (fst (run (init g) evs)) = 0%nat.
+Proof. exact c20_no_timers_after_close. Qed.
+Print Assumptions C20_no_timers_after_close.
 
 (* The Deferred returned by close() (c_wait C = true: it has been handed out and has not fired; c_clients = None and
    c_wait = false: it has fired).  In EVERY reachable state:
